@@ -3,8 +3,8 @@
 import json, os, sys
 ROOT = os.path.dirname(os.path.dirname(os.path.abspath(__file__)))
 sys.path.insert(0, os.path.join(ROOT, "bin"))
-from checks_table import CHECKS, LEVEL
-from manifest_meta import META, HOOK_COMMITS, NOT_APPLICABLE, ENGINES
+from checks_table import CHECKS, LEVEL, META
+from manifest_meta import HOOK_COMMITS, NOT_APPLICABLE, ENGINES
 
 checks = []
 for pid in sorted(CHECKS):
